@@ -221,6 +221,31 @@ def canonCancelOrders (ev : Event) (before after : Eng) (a : Audit) : Eng × Aud
      { a with commanded := some c' })
   | _, _ => (after, a)
 
+def eventKind : Event → String
+  | .shutdown => "shutdown"
+  | .command (.sendCancelRequests _) => "cmdCancel"
+  | .command (.sendOpenRequests _) => "cmdOpen"
+  | .command (.closePositions _) => "closePositions"
+  | .command (.cancelOrders _) => "cancelOrders"
+  | .tradingState true => "tradingOn"
+  | .tradingState false => "tradingOff"
+  | .update (.order _ _) => "orderUpdate"
+  | .update (.position _ _ _) => "fill"
+  | .update (.flat _) => "flat"
+  | .update (.price _ _) => "price"
+
+/-- branch tags for the evidence histogram (`% ...`, not compared): event kind, trading state before,
+which links the tick touched with which outcome, what the generation stage did -/
+def tickTags (before : Eng) (ev : Event) (a : Audit) : List String :=
+  let gen := match a.generated with
+    | none => "notRun"
+    | some g => if g.isEmpty then "empty" else if g.fatal then "fatal" else
+        (if g.cancelsRefused.isEmpty && g.opensRefused.isEmpty then "sent" else "sentAndRefused")
+  let cmd := match a.commanded with
+    | none => "none"
+    | some c => if c.fatal then "fatal" else if c.cancels.isEmpty && c.opens.isEmpty then "empty" else "sent"
+  [ s!"% ev={eventKind ev} enabled={fmtBool before.enabled} cmd={cmd} gen={gen}" ]
+
 def model : Drv St where
   init := St.init
   step s toks :=
@@ -242,7 +267,7 @@ def model : Drv St where
         if isNoopFlat s.eng ev then (⟨s.eng, [], []⟩, ["noop"]) else
         let (e', a) := process s.eng ev s.algoC s.algoO refuse
         let (e'', a') := canonCancelOrders ev s.eng e' a
-        (⟨e'', [], []⟩, obsTick s.eng e'' a')
+        (⟨e'', [], []⟩, obsTick s.eng e'' a' ++ tickTags s.eng ev a)
     | _ => (s, ["bad-op"])
 
 /-- the spec view: the model's values on the observation keys the property constrains -/
